@@ -414,6 +414,15 @@ def notify_after(ctx, tu, fn, pos, pred, visiting):
                     skip_false = ok
             except (F.Unsupported, Exception):
                 skip_false = False
+            # the re-test has to look at the state *after* the write: a local that was computed before the write (and is merely read
+            # here) describes the state another thread may have changed since - skipping the notify on its word loses a wake-up
+            if skip_false:
+                c0 = blk['cond']
+                for d in [c0] + fn.descendants(c0):
+                    if fn.nodes[d]['cls'] == 'DeclRefExpr' and fn.decl(d).get('kind') == 'var':
+                        vd = fn.var_decls().get(fn.decl(d)['id'])
+                        if vd and vd.get('stmt') and fn.pos(vd['stmt']) and not fn.pos_reaches(pos, fn.pos(vd['stmt'])):
+                            skip_false = False
             if succ[0] is not None:
                 work.append((succ[0], 0))
             if succ[1] is not None and not skip_false:
